@@ -111,6 +111,20 @@ func runC08(c *core.Ctx) {
 			}
 		}
 	}
+	// VP8: the picture id starts at 0 and cannot be set, so the 7-bit -> 15-bit descriptor switch at
+	// 128 (and the wrap at 32767) is only reachable through earlier calls: warm both instances up.
+	if kind == kVP8 && opts.vp8PicID && t.Chance(1, 2) {
+		n := []int{126, 127, 128, 200, 32766, 32767}[t.Weighted(2, 3, 3, 2, 1, 1)]
+		one := []byte{1}
+		c.Guard(api, func() {
+			for i := 0; i < n; i++ {
+				primary.Payload(8, one)
+				shadow.Payload(8, one)
+			}
+		})
+		c.Probe("vp8-picture-id-warmup")
+		c.Logf("warm-up: %d earlier frames", n)
+	}
 	var step func(k int)
 	step = func(k int) {
 		if k >= ncalls {
